@@ -137,3 +137,12 @@ func SV_C19_tally() {
 	OT, _ := e.vctx.Delegators.GetValidatorAmount(otherV)
 	sv.Assert(O.BigInt().Cmp(big.NewInt(other)) == 0 && OT.BigInt().Cmp(big.NewInt(other)) == 0, "stake-lodged-with-another-validator-is-untouched")
 }
+
+// SV_C19_frozen_stays_out: a frozen validator drops out of the validator set
+// and stays out while other validators are released (the election read from
+// the evidence records; same exploration as SV_C10_frozen_records).
+//
+// sv:bounds as SV_C10_frozen_records
+// sv:outside as SV_C10_frozen_records
+// sv:goal as SV_C10_frozen_records
+func SV_C19_frozen_stays_out() { SV_C10_frozen_records() }
